@@ -25,10 +25,15 @@ CONSTANTS MaxJobs,        \* --jobs ranges over 1..MaxJobs
           WakeupFd,       \* BOOLEAN: the self-pipe is the signal wakeup fd (written by the C-level handler, one byte per
                           \* delivered signal) and wait() loops until a return code is recorded (code after the D14 repair);
                           \* FALSE: the Python-level handler writes one byte per reaped child and wait() reads exactly one
+          JobControl,     \* BOOLEAN: a running task process may be stopped (SIGSTOP/SIGTSTP from outside) once and continued
+                          \* later; the parent gets SIGCHLD for both (no SA_NOCLDSTOP), waitpid(-1, WNOHANG) reports neither
           AllowAbort      \* BOOLEAN: SIGINT/SIGTERM may arrive (once) at any step; start_execution is then modelled in
                           \* finer steps (child forked / Popen bound / handle returned / registered)
 
 RO == INSTANCE RunObs
+
+Runs(x)  == x \in {"running", "resumed"}             \* can exit
+Alive(x) == x \in {"running", "resumed", "stopped"}  \* exists and has not exited
 
 VARIABLES gr,        \* the task graph (Planner.tla record) with par flags
           pl,        \* its plan
@@ -41,7 +46,7 @@ VARIABLES gr,        \* the task graph (Planner.tla record) with par flags
           inflS,     \* registered sync ops (list, popped from the end)
           slots,     \* free-slot stack
           runPar, completed, ndeq,
-          proc,      \* op -> "none" | "running" | "zombie" | "reaped"
+          proc,      \* op -> "none" | "running" | "stopped" | "resumed" (running again after a stop) | "zombie" | "reaped"
           code,      \* op -> exit code
           sigPending, pipe, rcs,   \* pending SIGCHLD, bytes in the self-pipe, SigchldHelper._returncodes
           active,    \* subprocess._active
@@ -159,7 +164,7 @@ Cleanup ==
     /\ pc = "cleanup"
     /\ LET z == {p \in active : proc[p] = "zombie"} IN
          /\ proc' = [p \in Ops |-> IF p \in z THEN "reaped" ELSE proc[p]]
-         /\ active' = {p \in active : proc'[p] = "running"}
+         /\ active' = {p \in active : Alive(proc'[p])}
     /\ pc' = "fork"
     /\ UNCHANGED <<Conf, cur, curSlot, ost, waiting, readyP, readyS, inflP, inflS, slots, runPar, completed, ndeq,
                    code, sigPending, pipe, rcs, slotOf, recorded, launchFailed, m>>
@@ -196,7 +201,7 @@ Del ==
     /\ pc = "del"
     /\ IF proc[cur] = "zombie"
        THEN proc' = [proc EXCEPT ![cur] = "reaped"] /\ UNCHANGED active
-       ELSE active' = (IF proc[cur] = "running" THEN active \cup {cur} ELSE active) /\ UNCHANGED proc
+       ELSE active' = (IF Alive(proc[cur]) THEN active \cup {cur} ELSE active) /\ UNCHANGED proc
     /\ pc' = "register"
     /\ UNCHANGED <<Conf, cur, curSlot, ost, waiting, readyP, readyS, inflP, inflS, slots, runPar, completed, ndeq,
                    code, sigPending, pipe, rcs, slotOf, recorded, launchFailed, m>>
@@ -269,11 +274,11 @@ KillAll(ps, mm) == IF ps = {} THEN mm
                    ELSE LET p == CHOOSE x \in ps : TRUE IN KillAll(ps \ {p}, RO!OnKill(Cfg, mm, TaskOf(p), 15, FALSE))
 AfterLoop ==
     /\ pc = "after_loop"
-    /\ LET victims == {p \in inflP : proc[p] \in {"running", "zombie"}} IN
+    /\ LET victims == {p \in inflP : (Alive(proc[p]) \/ proc[p] = "zombie")} IN
          /\ m' = KillAll(victims, m)
          \* SIGTERM: a running child dies
-         /\ proc' = [p \in Ops |-> IF p \in victims /\ proc[p] = "running" THEN "zombie" ELSE proc[p]]
-         /\ code' = [p \in Ops |-> IF p \in victims /\ proc[p] = "running" THEN 1015 ELSE code[p]]
+         /\ proc' = [p \in Ops |-> IF p \in victims /\ Alive(proc[p]) THEN "zombie" ELSE proc[p]]
+         /\ code' = [p \in Ops |-> IF p \in victims /\ Alive(proc[p]) THEN 1015 ELSE code[p]]
     /\ pc' = "kill_exits"
     /\ UNCHANGED <<Conf, cur, curSlot, ost, waiting, readyP, readyS, inflP, inflS, slots, runPar, completed, ndeq,
                    sigPending, pipe, rcs, active, slotOf, recorded, launchFailed>>
@@ -306,7 +311,7 @@ Report ==
 
 (* blocked forever in os.read on the self-pipe: nothing can ever write to it *)
 Hang ==
-    /\ pc = "blocked" /\ pipe = 0 /\ \A p \in Ops : proc[p] # "running"
+    /\ pc = "blocked" /\ pipe = 0 /\ \A p \in Ops : ~Alive(proc[p])
     /\ m' = RO!OnReturn(Cfg, m, -1, TRUE, "none", {}, {}, recorded, FALSE)
     /\ pc' = "done"
     /\ UNCHANGED <<Conf, cur, curSlot, ost, waiting, readyP, readyS, inflP, inflS, slots, runPar, completed, ndeq,
@@ -316,7 +321,7 @@ Hang ==
 (* Environment                                                             *)
 (***************************************************************************)
 ChildExit(p) ==
-    /\ proc[p] = "running" /\ pc \notin {"after_loop", "kill_exits", "report", "done", "abort_exits", "abort_report"}
+    /\ Runs(proc[p]) /\ pc \notin {"after_loop", "kill_exits", "report", "done", "abort_exits", "abort_report"}
     /\ \E c \in ExitCodes :
          /\ code' = [code EXCEPT ![p] = c]
          /\ m' = RO!OnExit(Cfg, m, TaskOf(p), c)
@@ -326,6 +331,18 @@ ChildExit(p) ==
     /\ pc' = IF pc = "blocked" THEN "wait" ELSE pc
     /\ UNCHANGED <<Conf, cur, curSlot, ost, waiting, readyP, readyS, inflP, inflS, slots, runPar, completed, ndeq,
                    rcs, active, slotOf, recorded, launchFailed>>
+
+(* Job control from outside: the stop and the continuation each raise SIGCHLD in the parent; neither changes what     *)
+(* waitpid(-1, WNOHANG) returns, so the handler finds nothing new for them.  A signal sent to a stopped process by  *)
+(* Conductor (stop-early, abort) is modelled as taking effect at once (in reality: when it is continued).            *)
+StopOrCont(p) ==
+    /\ JobControl /\ proc[p] \in {"running", "stopped"}
+    /\ pc \notin {"after_loop", "kill_exits", "report", "done", "abort_exits", "abort_report"}
+    /\ proc' = [proc EXCEPT ![p] = IF proc[p] = "running" THEN "stopped" ELSE "resumed"] /\ sigPending' = TRUE
+    /\ pipe' = IF WakeupFd /\ pc # "start" THEN pipe + 1 ELSE pipe
+    /\ pc' = IF pc = "blocked" THEN "wait" ELSE pc
+    /\ UNCHANGED <<Conf, cur, curSlot, ost, waiting, readyP, readyS, inflP, inflS, slots, runPar, completed, ndeq,
+                   code, rcs, active, slotOf, recorded, launchFailed, m>>
 
 (* SigchldHelper._handler: reap ALL zombies with waitpid(-1, WNOHANG), one pipe byte per recorded exit *)
 Handler ==
@@ -346,14 +363,14 @@ Handler ==
 (* A child forked but not yet bound ("infork"), or bound and returned but  *)
 (* not yet registered (pc = "register"), is signalled by nobody.           *)
 (***************************************************************************)
-LiveOps == {p \in Ops : proc[p] \in {"running", "zombie"}}
+LiveOps == {p \in Ops : Alive(proc[p]) \/ proc[p] = "zombie"}
 Abort ==
     /\ AllowAbort /\ abortPc = "" /\ pc \notin {"done", "abort_exits", "abort_report", "kill_exits"}
     /\ abortPc' = pc
-    /\ LET victims == {p \in (inflP \cup (IF pc = "bound" THEN {cur} ELSE {})) : proc[p] \in {"running", "zombie"}} IN
+    /\ LET victims == {p \in (inflP \cup (IF pc = "bound" THEN {cur} ELSE {})) : (Alive(proc[p]) \/ proc[p] = "zombie")} IN
          /\ m' = KillAll(victims, RO!OnAbort(Cfg, m, {TaskOf(p) : p \in LiveOps}))
-         /\ proc' = [p \in Ops |-> IF p \in victims /\ proc[p] = "running" THEN "zombie" ELSE proc[p]]
-         /\ code' = [p \in Ops |-> IF p \in victims /\ proc[p] = "running" THEN 1015 ELSE code[p]]
+         /\ proc' = [p \in Ops |-> IF p \in victims /\ Alive(proc[p]) THEN "zombie" ELSE proc[p]]
+         /\ code' = [p \in Ops |-> IF p \in victims /\ Alive(proc[p]) THEN 1015 ELSE code[p]]
     /\ pc' = "abort_exits"
     /\ UNCHANGED <<gr, pl, jobs, stop, cur, curSlot, ost, waiting, readyP, readyS, inflP, inflS, slots, runPar, completed,
                    ndeq, sigPending, pipe, rcs, active, slotOf, recorded, launchFailed>>
@@ -373,8 +390,9 @@ AbortReport ==     \* "Task aborted" banner, ConductorAbort -> cli_command -> ER
 Main == Start \/ LoopTest \/ Launch \/ SyncStart \/ Cleanup \/ ForkOK \/ ForkFail \/ Del \/ Register \/ WaitTry \/ Unblock
         \/ Finish \/ AfterLoop \/ KillExits \/ Report \/ Hang \/ BindPopen \/ ReturnHandle \/ AbortExits \/ AbortReport
 Done == pc = "done" /\ UNCHANGED vars
-Next == Main \/ Done \/ Handler \/ Abort \/ \E p \in Ops : ChildExit(p)
-Spec == Init /\ [][Next]_vars /\ WF_vars(Main) /\ WF_vars(Handler) /\ \A p \in 1..N : WF_vars(p \in Ops /\ ChildExit(p))
+Next == Main \/ Done \/ Handler \/ Abort \/ \E p \in Ops : ChildExit(p) \/ StopOrCont(p)
+Spec == Init /\ [][Next]_vars /\ WF_vars(Main) /\ WF_vars(Handler)
+             /\ \A p \in 1..N : WF_vars(p \in Ops /\ ChildExit(p)) /\ WF_vars(p \in Ops /\ proc[p] = "stopped" /\ StopOrCont(p))
 
 (***************************************************************************)
 (* Properties                                                              *)
